@@ -28,6 +28,28 @@ def parseNatList? (s : String) : Option (List Nat) :=
 def parseIntList? (s : String) : Option (List Int) :=
   if s = "-" ∨ s = "" then some [] else (s.splitOn ",").mapM (·.toInt?)
 
+def hexVal (c : Char) : Option Nat :=
+  if '0' ≤ c ∧ c ≤ '9' then some (c.toNat - 48)
+  else if 'a' ≤ c ∧ c ≤ 'f' then some (c.toNat - 87) else none
+
+def unhexBytes : List Char → Option (List UInt8)
+  | [] => some []
+  | [_] => none
+  | a :: b :: rest => do
+    let x ← hexVal a; let y ← hexVal b; let r ← unhexBytes rest
+    pure (UInt8.ofNat (x * 16 + y) :: r)
+
+/-- hex → UTF-8 string (`-` = empty) -/
+def unhexStr (s : String) : Option String :=
+  if s = "-" then some "" else do
+    let bs ← unhexBytes s.toList
+    String.fromUTF8? (ByteArray.mk bs.toArray)
+
+def hexDigitC (n : Nat) : Char := if n < 10 then Char.ofNat (48 + n) else Char.ofNat (87 + n)
+def hexOfStr (s : String) : String :=
+  if s.isEmpty then "-" else
+  String.ofList (s.toUTF8.toList.foldr (fun x acc => hexDigitC (x.toNat / 16) :: hexDigitC (x.toNat % 16) :: acc) [])
+
 /-- A component: a state, a way to start a case from the `case` line's words, and a step that
 maps an op (as words) to the model output text.  `none` from `step` = malformed op line. -/
 structure Component where
